@@ -43,8 +43,14 @@ if PYMC_GT_516:
             return 0.5 * (a + b)
 
         def logp(value, a, b):
+            # p(x) = 1 / (x ln(b/a)) for a <= x <= b, zero outside
             _fac = pt.log(b) - pt.log(a)
-            res = -pt.as_tensor_variable(value) - pt.log(_fac)
+            value = pt.as_tensor_variable(value)
+            res = pt.switch(
+                pt.and_(pt.ge(value, a), pt.le(value, b)),
+                -pt.log(value) - pt.log(_fac),
+                -np.inf,
+            )
             return check_parameters(
                 res,
                 (a > 0) & (a < b),
@@ -84,8 +90,14 @@ else:  # old behavior
         moment = support_point
 
         def logp(value, a, b):
+            # p(x) = 1 / (x ln(b/a)) for a <= x <= b, zero outside
             _fac = pt.log(b) - pt.log(a)
-            res = -pt.as_tensor_variable(value) - pt.log(_fac)
+            value = pt.as_tensor_variable(value)
+            res = pt.switch(
+                pt.and_(pt.ge(value, a), pt.le(value, b)),
+                -pt.log(value) - pt.log(_fac),
+                -np.inf,
+            )
             return check_parameters(
                 res,
                 (a > 0) & (a < b),
